@@ -248,6 +248,26 @@ EXTRA = {
            "executed exactly as in the fault-free run.",
 }
 
+EXTRA2 = {
+    "C01": " Rounds 4-5: feeds as list of lists, categorical grouping column, percentages within float tolerance of the threshold, one live feed frame overwritten between polls, odd unexpected ids, baseline file saved by an earlier run.",
+    "C02": " Rounds 4-5: categorical and integer grouping columns, one live feed frame overwritten between polls.",
+    "C03": " Rounds 4-5: integer grouping columns, one live feed frame overwritten between polls.",
+    "C04": " Rounds 4-5: the table column of every level must hold the interval calibrated at that level (unsorted level lists); conformity scores recomputed from the held-out units' actual counts and the recorded bound predictions; party-surge elections.",
+    "C05": " Rounds 4-5: party-surge elections (median change far outside the turnout-factor band), shuffled baseline rows.",
+    "C06": " Rounds 4-5: rarely used bootstrap options (strata, unobserved bounds, percent_expected_vote_error_bound up to 5, states_for_separate_model).",
+    "C07": " Rounds 4-5: statewide offices without default aggregates (A, L, G_precinct).",
+    "C09": " Rounds 4-5: baseline file carrying derived columns of an earlier run, outlier_z_threshold varied, unit and state blocklists together.",
+    "C10": " Rounds 4-5: counts just below 127 / 32767 with list-of-lists feeds; hidden historical value missing or infinite.",
+    "C11": " Rounds 4-5: every expected unit reporting plus a stray unit; ids differing from a baseline id only by a blank.",
+    "C12": " Rounds 4-5: cross-process runs for every estimator with three hash seeds, two-column strata, elections of 6500-9500 units.",
+    "C13": " Rounds 4-5: forced primary-style configs, every estimand requested alone.",
+    "C14": " Rounds 4-5: no unit reaches the model (empty frame, header-only list, only unexpected units, every state blocklisted); a second state of one fully reported unit.",
+    "C16": " Rounds 4-5: the selection is judged against the user's request (constructor wrapped); level labels shared between effects.",
+    "C17": " Rounds 4-5: histories served as stored versions through the real S3VersionUtil across the end of daylight saving time; percent columns that drop during the night.",
+    "C18": " Rounds 4-5: gate outcome 'every state blocklisted'.",
+    "C19": " Rounds 4-5: 257-1100 versions with steps up to 11."
+}
+
 NOT_YET = {}
 
 
@@ -269,7 +289,7 @@ def main():
             evidence_file=f"/verif/evidence/{pid}.json",
             replay_cmd_template=f"{PY} -m vlib.check {pid} --replay {{path}}",
             engine="vlib",
-            level_claimed=dict(category=c["category"], text=c["text"] + EXTRA.get(pid, ""), design_ref=c["ref"] + " and 9.4"),
+            level_claimed=dict(category=c["category"], text=c["text"] + EXTRA.get(pid, "") + EXTRA2.get(pid, ""), design_ref=c["ref"] + " and 9.4"),
             level_note=c["note"],
             technique=c["technique"],
         ))
